@@ -114,3 +114,49 @@ def run(lo, hi, seed, res):
                                               want=[want[0], want[1].hex()]))
         if i % 40 == 0:
             res["samples"].append({"kind": "jump-program", "code": code.hex(), "targets": len(targets)})
+
+
+def run_codecopy(lo, hi, seed, res):
+    """CODECOPY / EXTCODECOPY across and beyond the end of the code into memory that already holds non-zero bytes: everything past the end
+    reads as zero (the destination is overwritten with zeros, it does not keep its old contents), also for huge offsets; the copied region,
+    returned as the runtime of a creation, has the jump destinations of the bytes actually copied"""
+    import symrun
+
+    rng = random.Random(f"c19cc-{seed}-{lo}")
+    for i in range(lo, hi):
+        filler = bytes(rng.choice([0x5B, 0xFF, 0x60, 0x01]) for _ in range(rng.randrange(0, 24)))
+        ext = rng.random() < 0.3
+        size = rng.choice([32, 64, 33, 1])
+        pre = []
+        for off in range(0, 96, 32):
+            pre += [("push", int.from_bytes(bytes([rng.choice([0x5B, 0xFF])]) * 32, "big"), 32), off, "MSTORE"]
+        # the copy source offset is patched in below, relative to the end of the code
+        for rel in (-8, -1, 0, 1, 40, 2**20, 2**64, 2**256 - 1):
+            def build(src_off):
+                body = pre + ([size, ("push", src_off % 2**256, 32), 0, ("push", 0x1000, 20), "EXTCODECOPY"] if ext else [size, ("push", src_off % 2**256, 32), 0, "CODECOPY"]) + [96, 0, "RETURN"]
+                return asm(body) + filler
+            n = len(build(0))
+            src = n + rel if rel < 2**20 else rel
+            if src < 0:
+                continue
+            code = build(src)
+            assert len(code) == n
+            res["counters"]["codecopy_programs"] += 1
+            res["counters"]["evaluations"] += 1
+            if src + size > n:
+                res["counters"]["codecopy_past_end"] += 1
+            W = refevm.World()
+            W.get(0x1000).code = code
+            ev = refevm.EVM(W, origin=0x2000, step_budget=5000)
+            ok, ret, kind = ev.call(0x1000, 0x2000, 0, b"", transfer=False)
+            r = symrun.run_symbolic({0x1000: code}, ncd=0, concrete=dict(cd=[], caller=0x2000, origin=0x2000, value=0))
+            if r.crash or len(r.paths) != 1:
+                res["violations"].append(dict(what="codecopy program: crash or path count != 1", key="codecopy-crash", code=code.hex(), src=hex(src), crash=r.crash, npaths=len(r.paths)))
+                continue
+            p = r.paths[0]
+            got = p.out if isinstance(p.out, bytes) else None
+            if not ok or p.error is not None or got != ret:
+                res["violations"].append(dict(what="bytes copied from (beyond) the end of the code differ from the EVM (past the end reads as zero)", key="codecopy-past-end",
+                                              code=code.hex(), src=hex(src), size=size, ext=ext, got=None if got is None else got.hex(), want=ret.hex(), error=p.error))
+        if i % 25 == 0:
+            res["samples"].append({"kind": "codecopy-program", "code": code.hex()[:200]})
